@@ -20,6 +20,17 @@ before column_proportions must not change what column_proportions reports), A's 
 smoother spec does not touch the unsmoothed measures) and a second read of B returns what the first
 returned.  Since B's smoothed values are compared with the trailing mean of A's unsmoothed values,
 an in-place overwrite of the unsmoothed measure cannot hide behind a consistent-looking B.
+
+Partially dated wave lists (after seeded change C20-11: the dimension-type resolver looked only at the FIRST
+non-missing category for a "date" key, so a wave list whose first valid wave is undated became plain CAT and every
+smoothed_* output silently returned the unsmoothed values for a valid window).  A categorical dimension is
+categorical-date as soon as SOME category carries a "date" (dimension.py: any(...)); the generator used to date
+every valid category.  `undate_some` now removes the "date" key from a seeded subset of the VALID categories of
+the smoothed dimension in about a third of the categorical-date cases (slices and strands; the first valid one,
+the last, a middle one, first+last, all but one; missing categories sit before / between / after as make_cat
+places them), always leaving at least one valid dated category.  The oracle is unchanged: the dimension is still
+categorical-date, so the model's trailing mean over the waves in payload order applies.  Evidence distribution:
+"undated waves: <pattern>" and "undated waves: first valid wave undated, smoothable".
 """
 import copy
 import json
@@ -45,6 +56,7 @@ def gen_case(rng, k):
     n_periods = rng.choice([1, 2, 3, 3, 4, 5, 6, 8, 12, 14, 16])
     colv = gen.make_cat(rng, "wave", n_valid=n_periods, date=cat_date,
                         n_missing=rng.choice([0, 0, 1]), numeric=rng.choice([None, "partial"]))
+    undated = undate_some(colv, k) if cat_date else None
     if strand:
         variables = [colv]
         aliases = ["wave"]
@@ -100,8 +112,48 @@ def gen_case(rng, k):
     mode, order = read_order(rng, strand, with_mean)
     return {"k": k, "strand": strand, "cat_date": cat_date and n_periods > 0,
             "response": resp, "transforms": transforms, "window": raw,
-            "n_periods": n_periods, "with_mean": with_mean,
+            "n_periods": n_periods, "with_mean": with_mean, "undated": undated,
             "read_mode": mode, "read_order": order}
+
+
+UNDATED_PATTERNS = ["first", "first", "first", "last", "middle", "first+last", "first+middle", "all-but-one",
+                    "all-but-last", "random"]
+
+
+def undate_some(colv, k):
+    """Remove the "date" key from some VALID categories of a categorical-date variable (in place), keeping at
+    least one valid dated category, so the variable stays categorical-date (some category carries a "date").
+    Own sub-generator (seeded from the case number and the category ids) so that the main case stream is the
+    one it was.  Returns None (left alone) or {"pattern":, "positions": positions among the valid categories}."""
+    sub = random.Random("C20-undated-%d-%r" % (k, [c["id"] for c in colv.cats]))
+    valid = [c for c in colv.cats if not c["missing"]]
+    n = len(valid)
+    if n < 2 or sub.random() >= 0.36:
+        return None
+    pattern = sub.choice(UNDATED_PATTERNS)
+    if pattern == "first":
+        pos = [0]
+    elif pattern == "last":
+        pos = [n - 1]
+    elif pattern == "middle":
+        pos = [sub.randrange(1, n - 1)] if n >= 3 else [n - 1]
+    elif pattern == "first+last":
+        pos = [0, n - 1] if n >= 3 else [0]
+    elif pattern == "first+middle":
+        pos = [0, sub.randrange(1, n - 1)] if n >= 3 else [0]
+    elif pattern == "all-but-one":
+        keep = sub.randrange(n)
+        pos = [i for i in range(n) if i != keep]
+    elif pattern == "all-but-last":
+        pos = list(range(n - 1))
+    else:
+        pos = sorted(sub.sample(range(n), sub.randint(1, n - 1)))
+    for i in pos:
+        valid[i].pop("date", None)
+    assert any("date" in c for c in valid)
+    return {"pattern": pattern, "positions": pos, "first_valid_undated": 0 in pos,
+            "missing_before_first_valid": bool(colv.cats[0]["missing"]),
+            "missing_after_last_valid": bool(colv.cats[-1]["missing"])}
 
 
 def output_names(strand, with_mean):
@@ -378,11 +430,24 @@ def run(tier, seed):
         rep.dist("window=%s" % (case["window"],))
         rep.dist("smoothable" if nt else "guarded")
         rep.dist("read_order=" + case["read_mode"])
+        und = case.get("undated")
+        if und:
+            rep.dist("undated waves: " + und["pattern"])
+            rep.dist("undated waves: %s, %s" % ("strand" if case["strand"] else "slice",
+                                                 "smoothable" if nt else "guarded"))
+            if und["first_valid_undated"] and nt:
+                rep.dist("undated waves: first valid wave undated, smoothable")
+            if und["missing_before_first_valid"]:
+                rep.dist("undated waves: missing category before the first valid wave")
+            if und["missing_after_last_valid"]:
+                rep.dist("undated waves: missing category after the last valid wave")
+        elif case["cat_date"]:
+            rep.dist("undated waves: none (all valid waves dated)")
         if not case["strand"] and case["read_order"] and case["read_order"][0] == "smoothed_columns_scale_mean":
             rep.dist("read_order: smoothed_columns_scale_mean before everything else")
         if nt:
             rep.sample({"window": case["window"], "n_periods": case["n_periods"],
-                        "strand": case["strand"], "dimtypes": io["dimtypes"],
+                        "strand": case["strand"], "dimtypes": io["dimtypes"], "undated": case.get("undated"),
                         "transforms": case["transforms"]})
         for what, detail in compare(case, io, jobs, res, rep):
             ctx = {"what": what, "window": case["window"]}
@@ -393,7 +458,8 @@ def run(tier, seed):
             rep.violation(kind, _replayable(case), dict(detail, what=what), ctx)
     rep.cov["rule"] = (
         "cases from random.Random(seed): CAT|MR x CAT_DATE|CAT slices and CAT_DATE|CAT strands "
-        "with dyadic weights, row/column subtotals, optional mean measure, smoother window in "
+        "with dyadic weights, row/column subtotals, optional mean measure, in about a third of the categorical-date "
+        "cases some (never all) VALID waves without a \"date\" key (first / last / middle / several), smoother window in "
         "{absent,null,-1..10}; non-trivial = categorical-date with 2 <= w <= periods (smoothing "
         "actually happens); distinct by content hash of response+transforms; per case a seeded read order of the "
         "smoothed and unsmoothed outputs on ONE partition (smoothed first - half of them with the smoothed scale "
@@ -418,7 +484,7 @@ def _replayable(case):
     return {"response": case["response"], "transforms": case["transforms"],
             "with_mean": case["with_mean"],
             "strand": case["strand"], "window": case["window"], "cat_date": case["cat_date"],
-            "n_periods": case["n_periods"], "k": case["k"],
+            "n_periods": case["n_periods"], "k": case["k"], "undated": case.get("undated"),
             "read_mode": case.get("read_mode"), "read_order": case.get("read_order")}
 
 
